@@ -34,22 +34,23 @@ theorem drop_take_succ (l : List Nat) (k n : Nat) (h : k < l.length) :
 
 /-- the literal loop writes the code words of `mb[k .. k+n)`, and `readLiterals` reads them back -/
 theorem storeLits_ok (ring : Bytes) (mask start : Nat) (mb : Bytes) (litD litB : List Nat) (lit : Code)
-    (hR : RingHolds ring mask start mb) (hS : ∀ b ∈ mb, SymIO litD litB lit b) :
-    ∀ (n k : Nat) (w : Writer), k + n ≤ mb.length →
+    (hR : RingHolds ring mask start mb) :
+    ∀ (n k : Nat) (w : Writer), k + n ≤ mb.length → (∀ b ∈ (mb.drop k).take n, SymIO litD litB lit b) →
       ∃ lb, storeLits ring mask litD litB n (posOf start k) w = .ok (w ++ lb, posOf start (k + n)) ∧
         ∀ acc rest, readLiterals lit n acc (lb ++ rest) = some (acc ++ (mb.drop k).take n, rest) := by
   intro n
   induction n with
   | zero =>
-    intro k w _
+    intro k w _ _
     refine ⟨[], by simp [storeLits], ?_⟩
     intro acc rest
     simp [readLiterals]
   | succ n ih =>
-    intro k w hk
+    intro k w hk hS
     have hk' : k < mb.length := by omega
-    obtain ⟨sb, hs, hr⟩ := hS _ (getD_mem mb k hk')
-    obtain ⟨lb, h1, h2⟩ := ih (k + 1) (w ++ sb) (by omega)
+    rw [drop_take_succ mb k n hk'] at hS
+    obtain ⟨sb, hs, hr⟩ := hS (mb.getD k 0) (List.mem_cons_self ..)
+    obtain ⟨lb, h1, h2⟩ := ih (k + 1) (w ++ sb) (by omega) (fun b hb => hS b (List.mem_cons_of_mem _ hb))
     refine ⟨sb ++ lb, ?_, ?_⟩
     · unfold storeLits
       rw [hR k hk', Out.bind_ok, hs w, Out.bind_ok, posOf_add, h1]
@@ -60,6 +61,12 @@ theorem storeLits_ok (ring : Bytes) (mask start : Nat) (mb : Bytes) (litD litB :
       simp only
       rw [h2, drop_take_succ mb k n hk']
       simp
+
+/-- the literal bytes of a command array: `mb[k .. k + insert_len)` per command, `k` advancing by
+`insert_len + copy_len()` -/
+def litsOf (mb : Bytes) : Nat → List Cmd → List Nat
+  | _, [] => []
+  | k, c :: cs => (mb.drop k).take c.insertLen ++ litsOf mb (k + c.insertLen + copyLen c) cs
 
 end BV.MetaBlock
 
